@@ -14,6 +14,12 @@ def jobs():
             defines={'MAXN': 12}, thorough_defines={'MAXN': 24}, unwind=None, reach=['reserved', 'not-reserved'], min_obligations=10,
             clauses=['true exactly for a reserved first character (_ # $ \' ") or data_*, save_*, loop_, stop_, global_ '
                      '(ASCII case-insensitive)', 'never reads past the terminating NUL'], timeout=300),
+        Job('analyze_string', 'utils_h.c', entry='harness_analyze_string', enforce='cif_analyze_string', tus=T,
+            replace=['cif_is_reserved_string', 'u_strstr_72'], defines={'MAXN': 10}, thorough_defines={'MAXN': 24}, loops=2,
+            reach=['bare', 'quoted', 'triple', 'text-field'], min_obligations=50, timeout=1800, mem_gb=16,
+            trusted=['assumed ICU contracts u_strstr (first occurrence or NULL) and u_strcpy', 'reference statistics an_ghosts() in harness/utils_h.c (executable form of the documented statistics)'],
+            clauses=['length, number of lines, first / last / longest line, longest semicolon run, newline-semicolon: exact',
+                     'delimiter permitted by the arguments and absent from / safe for the string', 'bare or single quoting preferred for a short single line']),
     ]
 
 
